@@ -1,6 +1,6 @@
 (* C05 — proofs over the reals: quadrature accumulation of PMD / PDL (sqrt form used by the code vs the
    squared form executed by the model), first-order Raman pump gain. *)
-From Coq Require Import Reals Lra Permutation QArith Qreals List.
+From Coq Require Import Reals Lra Permutation QArith Qreals List Ranalysis1.
 Import ListNotations.
 From Verif Require Import Model.Fiber Proofs.Fiber.
 Open Scope R_scope.
@@ -179,4 +179,266 @@ Proof.
   intros a grid HF xs. rewrite step_prod_R. apply euler_vs_budget.
   unfold xs. rewrite Forall_forall in *. intros x Hx. apply in_map_iff in Hx. destruct Hx as [dz [<- Hdz]].
   apply HF; exact Hdz.
+Qed.
+
+(* ================================================================================================
+   the zero-power LIMIT of the Euler scheme (continuity in the scaling factor of the input powers) *)
+(* Euler scheme over R, loss-profile form, with the input powers scaled by t: state = one function of t per channel *)
+Definition cont0 (f : R -> R) : Prop := continuity_pt f 0.
+
+Fixpoint dotF (r : list R) (ps : list (R -> R)) : R -> R :=
+  match r, ps with
+  | a :: r', p :: ps' => fun t => a * p t + dotF r' ps' t
+  | _, _ => fun _ => 0
+  end.
+
+Fixpoint powersF (p0 : list R) (gs : list (R -> R)) : list (R -> R) :=
+  match p0, gs with
+  | p :: p0', g :: gs' => (fun t => (t * p) * g t) :: powersF p0' gs'
+  | _, _ => []
+  end.
+
+Fixpoint stepF_aux (ps : list (R -> R)) (dz ll : R) (gs : list (R -> R)) (alpha : list R) (cr : list (list R))
+  : list (R -> R) :=
+  match gs, alpha, cr with
+  | g :: gs', a :: alpha', c :: cr' =>
+      (fun t => g t * (1 + (- a + dotF c ps t) * dz) * ll) :: stepF_aux ps dz ll gs' alpha' cr'
+  | _, _, _ => []
+  end.
+Definition stepF (alpha : list R) (cr : list (list R)) (p0 : list R) (dz ll : R) (gs : list (R -> R)) : list (R -> R) :=
+  stepF_aux (powersF p0 gs) dz ll gs alpha cr.
+
+Fixpoint eulerF (alpha : list R) (cr : list (list R)) (p0 : list R) (grid : list (R * R)) (gs : list (R -> R))
+  : list (R -> R) :=
+  match grid with
+  | [] => gs
+  | (z0, l0) :: t =>
+      match t with
+      | [] => gs
+      | (z1, _) :: _ => eulerF alpha cr p0 t (stepF alpha cr p0 (z1 - z0) l0 gs)
+      end
+  end.
+
+Fixpoint grid_factorR (a : R) (grid : list (R * R)) : R :=
+  match grid with
+  | [] => 1
+  | (z0, l0) :: t =>
+      match t with
+      | [] => 1
+      | (z1, _) :: _ => (1 - a * (z1 - z0)) * l0 * grid_factorR a t
+      end
+  end.
+
+Lemma cont0_const : forall c, cont0 (fun _ => c).
+Proof. intros c. apply continuity_pt_const. intros x y. reflexivity. Qed.
+Lemma cont0_id : cont0 (fun t => t).
+Proof. apply derivable_continuous_pt. apply derivable_pt_id. Qed.
+Lemma cont0_plus : forall f g, cont0 f -> cont0 g -> cont0 (fun t => f t + g t).
+Proof. intros f g Hf Hg. apply (continuity_pt_plus f g 0 Hf Hg). Qed.
+Lemma cont0_mult : forall f g, cont0 f -> cont0 g -> cont0 (fun t => f t * g t).
+Proof. intros f g Hf Hg. apply (continuity_pt_mult f g 0 Hf Hg). Qed.
+
+Lemma dotF_cont : forall r ps, Forall cont0 ps -> cont0 (dotF r ps).
+Proof.
+  induction r as [|a r IH]; intros ps HF; cbn [dotF]; [apply cont0_const|].
+  destruct ps as [|p ps]; [apply cont0_const|]. inversion HF as [|x l Hp HFt]; subst.
+  apply cont0_plus; [apply cont0_mult; [apply cont0_const|exact Hp]|apply IH; exact HFt].
+Qed.
+
+Lemma powersF_cont : forall p0 gs, Forall cont0 gs -> Forall cont0 (powersF p0 gs).
+Proof.
+  induction p0 as [|p p0 IH]; intros gs HF; cbn [powersF]; [constructor|].
+  destruct gs as [|g gs]; [constructor|]. inversion HF as [|x l Hg HFt]; subst. constructor.
+  - apply cont0_mult; [apply cont0_mult; [apply cont0_id|apply cont0_const]|exact Hg].
+  - apply IH; exact HFt.
+Qed.
+
+Lemma stepF_aux_cont : forall ps dz ll gs alpha cr, Forall cont0 ps -> Forall cont0 gs ->
+  Forall cont0 (stepF_aux ps dz ll gs alpha cr).
+Proof.
+  intros ps dz ll. induction gs as [|g gs IH]; intros alpha cr Hps HF; cbn [stepF_aux]; [constructor|].
+  destruct alpha as [|a alpha]; [constructor|]. destruct cr as [|c cr]; [constructor|].
+  inversion HF as [|x l Hg HFt]; subst. constructor; [|apply IH; assumption].
+  apply cont0_mult; [|apply cont0_const]. apply cont0_mult; [exact Hg|].
+  apply cont0_plus; [apply cont0_const|]. apply cont0_mult; [|apply cont0_const].
+  apply cont0_plus; [apply cont0_const|apply dotF_cont; exact Hps].
+Qed.
+
+Lemma eulerF_cont : forall alpha cr p0 grid gs, Forall cont0 gs -> Forall cont0 (eulerF alpha cr p0 grid gs).
+Proof.
+  intros alpha cr p0 grid. induction grid as [|[z0 l0] t IH]; intros gs HF; cbn [eulerF]; [exact HF|].
+  destruct t as [|[z1 l1] t']; [exact HF|]. apply IH. unfold stepF.
+  apply stepF_aux_cont; [apply powersF_cont; exact HF|exact HF].
+Qed.
+
+(* value at t = 0: every channel decouples *)
+Lemma dotF_zero : forall r ps, Forall (fun p => p 0 = 0) ps -> dotF r ps 0 = 0.
+Proof.
+  induction r as [|a r IH]; intros ps HF; cbn [dotF]; [reflexivity|].
+  destruct ps as [|p ps]; [reflexivity|]. inversion HF as [|x l Hp HFt]; subst. rewrite Hp, (IH ps HFt). ring.
+Qed.
+Lemma powersF_zero : forall p0 gs, Forall (fun p => p 0 = 0) (powersF p0 gs).
+Proof.
+  induction p0 as [|p p0 IH]; intros gs; cbn [powersF]; [constructor|].
+  destruct gs as [|g gs]; [constructor|]. constructor; [ring|apply IH].
+Qed.
+
+(* the values at 0 of a list of functions *)
+Definition at0 (gs : list (R -> R)) : list R := map (fun g => g 0) gs.
+
+Fixpoint lin_stepR (dz ll : R) (g : list R) (alpha : list R) (cr : list (list R)) : list R :=
+  match g, alpha, cr with
+  | x :: g', a :: alpha', _ :: cr' => x * (1 - a * dz) * ll :: lin_stepR dz ll g' alpha' cr'
+  | _, _, _ => []
+  end.
+
+Lemma stepF_at0 : forall ps dz ll gs alpha cr, Forall (fun p => p 0 = 0) ps ->
+  at0 (stepF_aux ps dz ll gs alpha cr) = lin_stepR dz ll (at0 gs) alpha cr.
+Proof.
+  intros ps dz ll. induction gs as [|g gs IH]; intros alpha cr Hps; cbn [stepF_aux at0 map lin_stepR]; [reflexivity|].
+  destruct alpha as [|a alpha]; [reflexivity|]. destruct cr as [|c cr]; [reflexivity|].
+  cbn [map]. rewrite (dotF_zero c ps Hps). f_equal; [ring|]. apply (IH alpha cr Hps).
+Qed.
+
+Fixpoint closedR (grid : list (R * R)) (g : list R) (alpha : list R) (cr : list (list R)) : list R :=
+  match g, alpha, cr with
+  | x :: g', a :: alpha', _ :: cr' => x * grid_factorR a grid :: closedR grid g' alpha' cr'
+  | _, _, _ => []
+  end.
+
+Lemma closedR_unit : forall g alpha cr, length alpha = length g -> length cr = length g ->
+  closedR [] g alpha cr = g.
+Proof.
+  induction g as [|x g IH]; intros alpha cr Ha Hc; [reflexivity|].
+  destruct alpha as [|a alpha]; [discriminate|]. destruct cr as [|c cr]; [discriminate|].
+  cbn [closedR grid_factorR]. f_equal; [ring|]. apply IH; cbn [length] in *; congruence.
+Qed.
+Lemma closedR_single : forall p g alpha cr, length alpha = length g -> length cr = length g ->
+  closedR [p] g alpha cr = g.
+Proof.
+  intros [z l]. induction g as [|x g IH]; intros alpha cr Ha Hc; [reflexivity|].
+  destruct alpha as [|a alpha]; [discriminate|]. destruct cr as [|c cr]; [discriminate|].
+  cbn [closedR grid_factorR]. f_equal; [ring|]. apply IH; cbn [length] in *; congruence.
+Qed.
+
+Lemma lin_step_length : forall dz ll g alpha cr, length alpha = length g -> length cr = length g ->
+  length (lin_stepR dz ll g alpha cr) = length g.
+Proof.
+  induction g as [|x g IH]; intros alpha cr Ha Hc; [reflexivity|].
+  destruct alpha as [|a alpha]; [discriminate|]. destruct cr as [|c cr]; [discriminate|].
+  cbn [lin_stepR length]. f_equal. apply IH; cbn [length] in *; congruence.
+Qed.
+
+Lemma closedR_step : forall z0 l0 z1 l1 t g alpha cr,
+  closedR ((z1, l1) :: t) (lin_stepR (z1 - z0) l0 g alpha cr) alpha cr = closedR ((z0, l0) :: (z1, l1) :: t) g alpha cr.
+Proof.
+  intros z0 l0 z1 l1 t. induction g as [|x g IH]; intros alpha cr; [reflexivity|].
+  destruct alpha as [|a alpha]; [reflexivity|]. destruct cr as [|c cr]; [reflexivity|].
+  cbn [lin_stepR closedR]. f_equal; [|apply IH].
+  change (grid_factorR a ((z0, l0) :: (z1, l1) :: t)) with ((1 - a * (z1 - z0)) * l0 * grid_factorR a ((z1, l1) :: t)). ring.
+Qed.
+
+Lemma at0_length : forall gs, length (at0 gs) = length gs.
+Proof. intros. unfold at0. apply map_length. Qed.
+
+Lemma eulerF_step : forall alpha cr p0 z0 l0 z1 l1 t gs,
+  eulerF alpha cr p0 ((z0, l0) :: (z1, l1) :: t) gs = eulerF alpha cr p0 ((z1, l1) :: t) (stepF alpha cr p0 (z1 - z0) l0 gs).
+Proof. reflexivity. Qed.
+
+Lemma eulerF_at0 : forall alpha cr p0 grid gs, length alpha = length gs -> length cr = length gs ->
+  at0 (eulerF alpha cr p0 grid gs) = closedR grid (at0 gs) alpha cr.
+Proof.
+  intros alpha cr p0 grid. induction grid as [|[z0 l0] t IH]; intros gs Ha Hc.
+  - cbn [eulerF]. rewrite closedR_unit; rewrite ?at0_length; auto.
+  - destruct t as [|[z1 l1] t'].
+    + cbn [eulerF]. rewrite closedR_single; rewrite ?at0_length; auto.
+    + rewrite eulerF_step, IH.
+      * unfold stepF. rewrite stepF_at0 by apply powersF_zero. apply closedR_step.
+      * unfold stepF. rewrite <- (at0_length (stepF_aux _ _ _ _ _ _)), stepF_at0 by apply powersF_zero.
+        rewrite lin_step_length; rewrite ?at0_length; auto.
+      * unfold stepF. rewrite <- (at0_length (stepF_aux _ _ _ _ _ _)), stepF_at0 by apply powersF_zero.
+        rewrite lin_step_length; rewrite ?at0_length; auto.
+Qed.
+
+(* the limit: as the input powers t * p0 go to 0, the loss profile of every channel tends to the zero-power
+   closed form g_j * prod_k (1 - alpha_j dz_k) * lumped_k *)
+Theorem euler_zero_power_limit : forall alpha cr p0 grid (g : list R) j,
+  length alpha = length g -> length cr = length g ->
+  let Gs := eulerF alpha cr p0 grid (map (fun x => fun _ : R => x) g) in
+  forall eps, 0 < eps -> exists delta, 0 < delta /\
+    forall t, Rabs t < delta ->
+      Rabs (nth j Gs (fun _ => 0) t - nth j (closedR grid g alpha cr) 0) < eps.
+Proof.
+  intros alpha cr p0 grid g j Ha Hc Gs eps Heps.
+  assert (Forall cont0 Gs) as HF.
+  { apply eulerF_cont. clear. induction g; constructor; [apply cont0_const|assumption]. }
+  assert (at0 Gs = closedR grid g alpha cr) as H0.
+  { unfold Gs. rewrite eulerF_at0; rewrite ?map_length; auto. f_equal. unfold at0. rewrite map_map. apply map_id. }
+  assert (cont0 (nth j Gs (fun _ => 0))) as Hj.
+  { destruct (nth_in_or_default j Gs (fun _ => 0)) as [Hin|Hd]; [|rewrite Hd; apply cont0_const].
+    rewrite Forall_forall in HF. apply HF; exact Hin. }
+  assert (nth j (closedR grid g alpha cr) 0 = nth j Gs (fun _ => 0) 0) as ->.
+  { rewrite <- H0. unfold at0. exact (map_nth (fun g : R -> R => g 0) Gs (fun _ => 0) j). }
+  destruct (Hj eps Heps) as [delta [Hd Hlim]]. exists delta. split; [exact Hd|].
+  intros t Ht. destruct (Req_dec t 0) as [->|Hne].
+  - rewrite Rminus_diag_eq by reflexivity. rewrite Rabs_R0. exact Heps.
+  - apply Hlim. split; [split; [exact I|auto]|]. cbn. unfold R_dist. rewrite Rminus_0_r. exact Ht.
+Qed.
+
+(* the rational Euler scheme of Model/Fiber.v, read in R, is eulerF evaluated at the scaling factor *)
+Definition evalF (t : R) (Gs : list (R -> R)) : list R := map (fun G => G t) Gs.
+Definition gridR (grid : list (Q * Q)) : list (R * R) := map (fun zl => (Q2R (fst zl), Q2R (snd zl))) grid.
+
+Lemma Q2R_0' : Q2R 0 = 0.
+Proof. unfold Q2R. cbn. field. Qed.
+Lemma Q2R_1' : Q2R 1 = 1.
+Proof. unfold Q2R. cbn. field. Qed.
+Lemma Q2R_Qred : forall q, Q2R (Qred q) = Q2R q.
+Proof. intros q. apply Qeq_eqR. apply Qred_correct. Qed.
+
+Lemma dot_R : forall t r p Ps, evalF t Ps = map Q2R p -> Q2R (dot r p) = dotF (map Q2R r) Ps t.
+Proof.
+  intros t. unfold dot. induction r as [|a r IH]; intros p Ps H; cbn [map dotF combine qsum fold_right].
+  - apply Q2R_0'.
+  - destruct p as [|x p]; destruct Ps as [|P Ps]; try discriminate H; cbn [map combine fold_right dotF].
+    + apply Q2R_0'.
+    + cbn [evalF map] in H. injection H as H1 H2. cbn [fst snd].
+      rewrite Q2R_plus, Q2R_mult, <- H1. f_equal. apply IH. exact H2.
+Qed.
+
+Lemma powers_R : forall t tq p0 g Gs, t = Q2R tq -> evalF t Gs = map Q2R g ->
+  evalF t (powersF (map Q2R p0) Gs) = map Q2R (map (fun pg => (fst pg * snd pg)%Q) (combine (map (Qmult tq) p0) g)).
+Proof.
+  intros t tq p0. induction p0 as [|p p0 IH]; intros g Gs Ht H; cbn [map powersF combine evalF]; [reflexivity|].
+  destruct g as [|x g]; destruct Gs as [|G Gs]; try discriminate H; cbn [map combine powersF]; [reflexivity|].
+  cbn [evalF map] in H. injection H as H1 H2. cbn [fst snd]. f_equal.
+  - rewrite !Q2R_mult, H1, Ht. reflexivity.
+  - apply IH; assumption.
+Qed.
+
+Lemma step_R : forall t Ps pq dz ll g Gs alpha cr, evalF t Ps = map Q2R pq -> evalF t Gs = map Q2R g ->
+  evalF t (stepF_aux Ps (Q2R dz) (Q2R ll) Gs (map Q2R alpha) (map (map Q2R) cr)) =
+  map Q2R (map (fun u : Q * (Q * list Q) => let '(gj, (aj, crj)) := u in
+                 Qred (gj * (1 + (- aj + Qred (dot crj pq)) * dz) * ll))%Q (combine g (combine alpha cr))).
+Proof.
+  intros t Ps pq dz ll. induction g as [|x g IH]; intros Gs alpha cr HP H.
+  - destruct Gs; [reflexivity|discriminate H].
+  - destruct Gs as [|G Gs]; [discriminate H|]. cbn [evalF map] in H. injection H as H1 H2.
+    destruct alpha as [|a alpha]; [reflexivity|]. destruct cr as [|c cr]; [reflexivity|].
+    cbn [map combine stepF_aux evalF]. f_equal.
+    + rewrite Q2R_Qred, !Q2R_mult, Q2R_plus, Q2R_mult, Q2R_plus, Q2R_opp, Q2R_Qred, Q2R_1', H1.
+      rewrite (dot_R t c pq Ps HP). reflexivity.
+    + apply IH; assumption.
+Qed.
+
+Lemma euler_g_R : forall alpha cr p0 tq grid g Gs, evalF (Q2R tq) Gs = map Q2R g ->
+  evalF (Q2R tq) (eulerF (map Q2R alpha) (map (map Q2R) cr) (map Q2R p0) (gridR grid) Gs) =
+  map Q2R (euler_g alpha cr (map (Qmult tq) p0) grid g).
+Proof.
+  intros alpha cr p0 tq grid. induction grid as [|[z0 l0] t IH]; intros g Gs H; [exact H|].
+  destruct t as [|[z1 l1] t']; [exact H|].
+  change (gridR ((z0, l0) :: (z1, l1) :: t')) with ((Q2R z0, Q2R l0) :: (Q2R z1, Q2R l1) :: gridR t').
+  rewrite eulerF_step. change ((Q2R z1, Q2R l1) :: gridR t') with (gridR ((z1, l1) :: t')).
+  cbn [euler_g]. apply IH. unfold stepF, euler_step_g. rewrite <- Q2R_minus.
+  apply step_R; [|exact H]. apply (powers_R (Q2R tq) tq); [reflexivity|exact H].
 Qed.
